@@ -27,7 +27,7 @@ class Defs:
         mutref = {}   # local holding `&mut X...`  ->  X
         for bid, st in fn.stmts():
             rv = st['rv']
-            if rv['r'] == 'ref' and rv['mut'] and not st['lhs']['p']:
+            if rv['r'] == 'ref' and rv['mut'] and not st['lhs']['p'] and '*' not in rv['pl']['p']:
                 mutref[st['lhs']['l']] = rv['pl']['l']
         # reborrows / moves of mutable references
         changed = True
